@@ -140,6 +140,15 @@ func ScanPrefix(db ethdb.Iteratee, prefix []byte, keyLen int) []KV {
 	return out
 }
 
+func show(b []byte) string {
+	for _, c := range b {
+		if c < 0x20 || c > 0x7e {
+			return fmt.Sprintf("%x", b)
+		}
+	}
+	return string(b)
+}
+
 // DiffKV describes the first few differences between two sorted listings.
 func DiffKV(a, b []KV) string {
 	am, bm := map[string][]byte{}, map[string][]byte{}
@@ -154,7 +163,7 @@ func DiffKV(a, b []KV) string {
 		if w, ok := bm[k]; !ok {
 			d = append(d, fmt.Sprintf("only-left %x", k))
 		} else if !bytes.Equal(v, w) {
-			d = append(d, fmt.Sprintf("value-differs %x: %x vs %x", k, v, w))
+			d = append(d, fmt.Sprintf("value-differs %x: %s vs %s", k, show(v), show(w)))
 		}
 	}
 	for k := range bm {
@@ -200,8 +209,32 @@ func CaptureChainState(nd *Node) *ChainState {
 	}
 	cs.UTXOs = ScanPrefix(db, rawdb.UtxoPrefix, rawdb.UtxoKeyLength)
 	cs.Lockups = ScanPrefix(db, rawdb.CoinbaseLockupPrefix, rawdb.CoinbaseLockupKeyLength)
-	cs.AddrIndex = ScanPrefix(db, rawdb.AddressUtxosPrefix, len(rawdb.AddressUtxosPrefix)+common.AddressLength)
-	cs.AddrLocks = ScanPrefix(db, rawdb.AddressLockupsPrefix, len(rawdb.AddressLockupsPrefix)+common.AddressLength)
+	// address -> outpoint index: the stored value is a list whose order depends on history
+	// (removal swaps the last element in); compare it as a set, an empty list equals no record
+	for _, kv := range ScanPrefix(db, rawdb.AddressUtxosWithoutHeightPrefix, len(rawdb.AddressUtxosWithoutHeightPrefix)+common.AddressLength) {
+		p := new(types.ProtoAddressOutPoints)
+		var items []string
+		if err := proto.Unmarshal(kv.V, p); err != nil {
+			items = []string{fmt.Sprintf("undecodable:%x", kv.V)}
+		} else {
+			for _, op := range p.OutPoints {
+				items = append(items, fmt.Sprintf("%x:%d:d%d:l%x", op.GetHash().GetValue(), op.GetIndex(), op.GetDenomination(), op.GetLock()))
+			}
+		}
+		if len(items) == 0 {
+			continue
+		}
+		sort.Strings(items)
+		cs.AddrIndex = append(cs.AddrIndex, KV{kv.K, []byte(fmt.Sprint(items))})
+	}
+	// address -> locked balance: zero equals no record
+	for _, kv := range ScanPrefix(db, rawdb.AddressLockupsPrefix, len(rawdb.AddressLockupsPrefix)+common.AddressLength) {
+		v := new(big.Int).SetBytes(kv.V)
+		if v.Sign() == 0 {
+			continue
+		}
+		cs.AddrLocks = append(cs.AddrLocks, KV{kv.K, v.Bytes()})
+	}
 	return cs
 }
 
